@@ -643,7 +643,11 @@ impl PanicInfo {
     }
     /// file:line with the repository prefix stripped: stable signature of a panic site.
     pub fn site(&self) -> String {
-        self.location.trim_start_matches("/repo/").to_string()
+        // repository-relative path, also when the code under test lives in a scratch copy (.../repo/<path>)
+        match self.location.find("/repo/") {
+            Some(i) => self.location[i + 6..].to_string(),
+            None => self.location.clone(),
+        }
     }
 }
 
